@@ -145,7 +145,10 @@ def plan(ctx):
             if name in seen:
                 continue
             seen.add(name)
-            qs = acq.queries(desc, kq, versions, extra)
+            # single deviations also below 1.29 (one provider per tree), where the suffixless
+            # group takes other code paths
+            qs = acq.queries(desc, kq, versions, extra, versions_k1=('1.28', '1.24') if kstate == 0
+                             else ())
             # chunk the queries of a state so that states spread over workers
             for i in range(0, len(qs), 400):
                 cases.append({'state': name, 'setup': setup, 'queries': qs[i:i + 400],
